@@ -313,6 +313,8 @@ def _stream_ops(rng, paths, nstreams, nops, texts=None):
 def gen_series(rng):
     """One stream over k same-shape files, consumer keeps nothing (each envelope is dropped after it was checked)."""
     k = rng.randint(3, 8)
+    if rng.random() < 0.08:
+        k = rng.randint(40, 160)  # a long-lived stream: slow leaks need many sources
     series = workload.template_series(rng, k)
     files = {"/simfs/ser/f%d.feature" % i: t for i, (_lb, t) in enumerate(series)}
     opts = ALL_OPTS[rng.randrange(8)] if rng.random() < 0.3 else [True, True, True]
